@@ -60,7 +60,7 @@ func c07Ops() []c07Op {
 	ops = append(ops, c07Op{"gov.update_params(drafted_at_start)", "gov", "", 0}, c07Op{"gov.update_params(drafted_now)", "gov", "", 1})
 	ops = append(ops, c07Op{"accrue(1d)", "accrue", "", 86400}, c07Op{"repay(half)", "repay", "", 2}, c07Op{"repay(all)", "repay", "", 1})
 	// the module's real BeginBlocker (epoch snapshot of interest rate and redemption rate)
-	ops = append(ops, c07Op{"begin_block", "begin", "", 0})
+	ops = append(ops, c07Op{"next_blocks(2)", "blocks", "", 2})
 	return ops
 }
 
@@ -263,6 +263,7 @@ func (r *c07Run) apply(ctx sdk.Context, op c07Op, path []string) {
 		c, write := nctx.CacheContext()
 		func() {
 			defer func() { recover() }()
+			k.BeginBlocker(c) // every height of a real chain starts with it (per-block interest record)
 			if len(k.GetAllDebts(c)) > 0 {
 				k.UpdateInterestAndGetDebt(c, borrower)
 			}
@@ -338,10 +339,24 @@ func (r *c07Run) others(pre, post c07Obs, op c07Op, allow *big.Rat, bad func(str
 	}
 }
 
+func (r *c07Run) beginBlock(ctx sdk.Context) {
+	defer func() { recover() }()
+	r.w.App.StablestakeKeeper.BeginBlocker(ctx)
+}
+
+// nextBlocks: n ordinary 5-second blocks in which nothing but the module's BeginBlocker runs.
+func (r *c07Run) nextBlocks(ctx sdk.Context, n int) sdk.Context {
+	for i := 0; i < n; i++ {
+		ctx = ctx.WithBlockTime(ctx.BlockTime().Add(5 * time.Second)).WithBlockHeight(ctx.BlockHeight() + 1)
+		r.beginBlock(ctx)
+	}
+	return ctx
+}
+
 func (r *c07Run) key(ctx sdk.Context) string {
 	o := r.observe(ctx)
 	p := r.w.App.StablestakeKeeper.GetParams(ctx)
-	return fmt.Sprintf("%s|%s|%s|%s|%s|%s|%d|%s|%s", o.tv, o.supply, o.cash, o.shares["A"], o.shares["B"], o.debt, ctx.BlockTime().Unix(), p.InterestRate, p.RedemptionRate)
+	return fmt.Sprintf("%s|%s|%s|%s|%s|%s|%d|%s|%s", o.tv, o.supply, o.cash, o.shares["A"], o.shares["B"], o.debt, ctx.BlockTime().Unix(), p.InterestRate, p.RedemptionRate) + fmt.Sprintf("|h%%%d=%d", maxI(int64(p.EpochLength), 1), ctx.BlockHeight()%maxI(int64(p.EpochLength), 1))
 }
 
 func (r *c07Run) dfs(ctx sdk.Context, depth, maxDepth int, path []string, first int) {
@@ -387,8 +402,12 @@ func (r *c07Run) dfs(ctx sdk.Context, depth, maxDepth int, path []string, first 
 		if op.Kind == "accrue" {
 			c = c.WithBlockTime(c.BlockTime().Add(time.Duration(op.Amt) * time.Second)).WithBlockHeight(c.BlockHeight() + 1)
 			r.apply(ctx2(c, -op.Amt), op, np)
+		} else if op.Kind == "blocks" {
+			c = r.nextBlocks(c, int(op.Amt))
+			r.st.Clauses["next_blocks"]++
 		} else if op.Kind == "elapse" {
 			c = c.WithBlockTime(c.BlockTime().Add(time.Duration(op.Amt) * time.Second)).WithBlockHeight(c.BlockHeight() + 1)
+			r.beginBlock(c)
 			r.st.Clauses["elapse"]++
 		} else {
 			r.apply(c, op, np)
@@ -462,6 +481,32 @@ func (r *c07Run) root(u c07Unit) (sdk.Context, error) {
 	if err := r.deliver(base, &sstypes.MsgBond{Creator: r.addr["B"].String(), Amount: I(u.Size / 10)}); err != nil {
 		return base, fmt.Errorf("root bond B: %w", err)
 	}
+	if u.Hist == "epoch3_low_utilisation" {
+		// a NON-default epoch length (valid), a loan of 5 % of the vault only (the interest rate then steps DOWN
+		// epoch by epoch), and a few ordinary blocks behind it so that the per-block interest records exist
+		for _, d := range k.GetAllDebts(base) {
+			if d.Address == r.addr["X"].String() {
+				owed := d.Borrowed.Add(d.InterestStacked).Sub(d.InterestPaid)
+				if pay := owed.Sub(I(u.Size / 20)); pay.IsPositive() {
+					if err := k.Repay(base, r.addr["X"], sdk.NewCoin("uusdc", pay)); err != nil {
+						return base, fmt.Errorf("root repay: %w", err)
+					}
+				}
+			}
+		}
+		p := k.GetParams(base)
+		p.EpochLength = 3
+		p.InterestRate = p.InterestRateMax // it then steps down epoch by epoch (utilisation 5 %)
+		if err := r.deliver(base, &sstypes.MsgUpdateParams{Authority: w.Gov, Params: &p}); err != nil {
+			return base, fmt.Errorf("root epoch length: %w", err)
+		}
+		// ordinary blocks up to the one before an epoch block: the next single block (accrue / elapse) is an epoch block
+		n := 3 + int((3-(base.BlockHeight()+1)%3)%3)
+		base = r.nextBlocks(base, n-1+3)
+		for (base.BlockHeight()+1)%3 != 0 {
+			base = r.nextBlocks(base, 1)
+		}
+	}
 	if u.Hist == "emptied" {
 		k.BeginBlocker(base)
 		for _, d := range k.GetAllDebts(base) {
@@ -528,6 +573,9 @@ func c07RunUnit(w *World, u c07Unit, deadline time.Time, fixed []string) *KStats
 					r.st.Evaluations++
 					if op.Kind == "elapse" {
 						c = c.WithBlockTime(c.BlockTime().Add(time.Duration(op.Amt) * time.Second)).WithBlockHeight(c.BlockHeight() + 1)
+						r.beginBlock(c)
+					} else if op.Kind == "blocks" {
+						c = r.nextBlocks(c, int(op.Amt))
 					} else if op.Kind == "accrue" {
 						c = c.WithBlockTime(c.BlockTime().Add(time.Duration(op.Amt) * time.Second)).WithBlockHeight(c.BlockHeight() + 1)
 						r.apply(ctx2(c, -op.Amt), op, fixed[:d+1])
@@ -582,6 +630,9 @@ func RunC07(tier string) int {
 				if rt != "1" {
 					units = append(units, c07Unit{Rate: rt, Size: sz, First: i, Depth: depth, Hist: "emptied"})
 				}
+				if rt == "1.5" && si == 2 {
+					units = append(units, c07Unit{Rate: rt, Size: sz, First: i, Depth: depth, Hist: "epoch3_low_utilisation"})
+				}
 			}
 		}
 	}
@@ -592,7 +643,7 @@ func RunC07(tier string) int {
 		names = append(names, o.Name)
 	}
 	bounds := map[string]interface{}{"redemption_rates": c07Rates, "vault_sizes(shares)": c07Sizes, "ops": names, "depth": depth, "histories": []string{"fresh", "emptied after interest (rates > 1)"}, "lenders": []string{"A (majority)", "B (10%)"}, "borrower": "one address driving the real keeper Borrow/Repay"}
-	return KConclude("C07", tier, "K: exhaustive op sequences on the real stablestake handlers/keeper (CacheContext tree) vs exact rationals", "all sequences of length <= depth over {A/B bond a, A/B unbond s, borrow at cap-1/cap/cap+1, accrue a day of interest, repay half/all} from 27 vault states (5 redemption rates x 3 sizes, and for the 4 rates above 1 also the EMPTIED vault: epoch snapshot taken by the real BeginBlocker, loan repaid, every lender gone); every bond is additionally followed, on a discarded branch, by the immediate unbond of the minted shares",
+	return KConclude("C07", tier, "K: exhaustive op sequences on the real stablestake handlers/keeper (CacheContext tree) vs exact rationals", "all sequences of length <= depth over {A/B bond a, A/B unbond s, borrow at cap-1/cap/cap+1, accrue a day of interest, repay half/all} from 28 vault states (5 redemption rates x 3 sizes, and for the 4 rates above 1 also the EMPTIED vault: epoch snapshot taken by the real BeginBlocker, loan repaid, every lender gone); every bond is additionally followed, on a discarded branch, by the immediate unbond of the minted shares",
 		[]string{"vault root states are constructed by real Bond/Borrow plus interest stacked the way UpdateInterestStacked does (chosen amount) instead of waiting years of block time", "allowance of one share's worth = ceil(rate) base units"}, sum, bounds,
 		func(f KFinding) bool {
 			path, ok := toStrings(f.Input)
